@@ -56,6 +56,7 @@ def run(rep):
     w = rep.world('dev')
     rep.guard(x1, rep, w)
     rep.guard(x2, rep, w)
+    rep.guard(x2b, rep, w)
     rep.guard(x3, rep, w)
     rep.guard(x4, rep, w)
     import c04
@@ -68,6 +69,7 @@ def run(rep):
     rep.guard(x12, rep, w)
     rep.guard(x13, rep, w)
     rep.guard(x14, rep, w)
+    rep.guard(x15, rep, w)
     import c04_narrow
     rep.guard(c04_narrow.b4, rep, w)    # handler offsets that do not fit 16 bits are reported, not truncated (the handler would point into other code)
     import c15
@@ -167,6 +169,43 @@ def x2(rep, w):
             ok = bool(ev)
         r.check(ok, nm, '%s emits neither PopExcHandler nor JumpFinally on any path: leaving a try block this way keeps its handler '
                 'registered, so a later, unrelated throw is delivered to the abandoned catch block' % nm, f.loc())
+
+
+def x2b(rep, w):
+    """break / continue leave only the try blocks *inside* the loop: when they remove handlers in a counted loop, the count has to be
+    relative to the loop (nesting depth now minus nesting depth at the loop header). Counting every enclosing try block - the counter a
+    `return` rightly uses - also removes the handler of a try block around the loop, which is still needed after the loop."""
+    r = rep.rule('X2b', 'handler removal on break / continue is counted from the loop header, not from the function entry', floor=1)
+    ret = w.require_fn(P + 'emit_jumps_to_finally', 'C08')
+
+    def range_ends(f):
+        org = origins(f)
+        out = []
+        for b in f.blocks:
+            for s_ in b['s']:
+                rr = s_.get('r', {})
+                if rr.get('rv') == 'agg' and rr.get('adt') == 'std::ops::Range' and len(rr.get('ops', [])) == 2:
+                    pl = op_place(rr['ops'][1])
+                    out.append((org.get(pl['l'], set()) if pl else set(), s_.get('sp')))
+        return out
+    depth_fields = set()
+    for qs, _ in range_ends(ret):
+        for q in qs:
+            names = [t for t in q[1:] if not t.startswith('@') and t != '*' and not t.startswith('#')]
+            if names:
+                depth_fields.add(names[-1])
+    if not depth_fields:
+        raise Broken('C08', 'anchor', 'emit_jumps_to_finally: no counted loop over the try nesting depth')
+    r.ok('try nesting depth is kept in %s' % sorted(depth_fields))
+    for nm in ('break_statement', 'continue_statement'):
+        f = w.require_fn(P + nm, 'C08')
+        if not emits(w, f, {'PopExcHandler', 'JumpFinally'}):
+            continue
+        for qs, sp in range_ends(f):
+            absolute = [q for q in qs if [t for t in q[1:] if not t.startswith('@') and t != '*' and not t.startswith('#')][-1:] and
+                        [t for t in q[1:] if not t.startswith('@') and t != '*' and not t.startswith('#')][-1] in depth_fields and '#bin' not in q[1:]]
+            r.check(not absolute, '%s / handler removal relative to the loop' % nm, '%s removes one handler per enclosing try block of the *function* (bound %s): a loop inside a try block '
+                    'loses that try block\'s handler at the first break / continue, and the later PopExcHandler removes a caller\'s' % (nm, sorted(depth_fields)), f.loc(sp))
 
 
 _dom_cache = {}
@@ -638,6 +677,14 @@ def x11(rep, w, rid='X11', prop='C08'):
         return
     _, rw = field_accesses(w, ri)
     for (adt, fld) in flags:
+        if (adt, fld) in rw:
+            # a reset is right only for the frame whose finally block swallowed the exception. One slot cannot tell that frame from any
+            # other that returns meanwhile (a function called from the finally block, another activation of the same function):
+            # clearing it there loses an exception that is still propagating
+            r.bad('return_impl clears a single-slot exception-in-flight state', 'return_impl writes %s.%s, which is one slot for the whole %s: a normal return of any function called while a '
+                  'finally block is propagating an exception (another activation of the same function included) makes the next EndFinally fall through, and the exception is silently dropped'
+                  % (adt.rsplit('::', 1)[-1], fld, 'interpreter' if adt.endswith('::Vm') else 'fiber'), ri.loc())
+            continue
         r.check((adt, fld) in rw, 'return_impl resets the exception-in-flight state',
                 'return_impl removes the frame whose finally block was running but leaves %s.%s as it was: the next EndFinally anywhere re-raises whatever is on top of the stack, '
                 'and the recorded throw site points into the discarded function' % (adt.rsplit('::', 1)[-1], fld), ri.loc())
@@ -706,3 +753,26 @@ def x14(rep, w):
         n += c01.edges_traced(r, w, adt, lambda lab, fld=fld: lab[0] == fld, 'a fresh object returned from a try block is reclaimed while the finally block runs and the caller receives a dangling value')
     if n == 0:
         raise Broken('C08', 'anchor', 'jump_finally_impl parks no Value-typed state')
+
+
+def x15(rep, w):
+    """handlers nest dynamically: the same try statement can be active several times at once (recursion out of the try block, a fiber
+    re-entered), each activation with its own handler. Entering a try block therefore always adds an entry -- it never reuses or
+    replaces the entry on top, however similar that one looks."""
+    r = rep.rule('X15', 'entering a try block always pushes a new handler entry (no reuse of the entry on top)', floor=1)
+    hf = roles.resolve(w)['handlers']
+    n = 0
+    for f in sorted(w.yarel.fns.values(), key=lambda x: x.path):
+        if not f.path.startswith('yarel::object::ObjFiber::'):
+            continue
+        org = origins(f)
+        pushes = [bi for bi, t in f.calls() if strip_generics(callee_name(t) or '') == 'std::vec::Vec::push' and t['args'] and op_place(t['args'][0]) and
+                  any(hf in q for q in org.get(op_place(t['args'][0])['l'], ()))]
+        if not pushes:
+            continue
+        n += 1
+        r.check(c01.all_paths_hit(f, None, set(pushes)), '%s pushes on every path' % f.path.rsplit('::', 1)[-1],
+                '%s can return without pushing a handler entry (it reuses or skips one): a recursive activation of the same try statement then shares - and pops - the '
+                'caller\'s handler, and the exception escapes to an outer handler' % f.path, f.loc())
+    if n < 1:
+        raise Broken('C08', 'anchor', 'no ObjFiber function pushes onto the handler list')
